@@ -12,8 +12,9 @@ namespace C21Wire
 open C21
 
 structure Def where
-  tx : Tx
-  ms : List C22.Member
+  tx  : Tx
+  ms  : List C22.Member
+  fwd : Bool
 
 structure St where
   started : Bool
@@ -58,17 +59,18 @@ def splitSemi (line : String) : String × String :=
   | a :: rest => (a, " ; ".intercalate rest)
   | [] => ("", "")
 
-/-- `id:snd:size:fee:exp:sigok:took:bl:signed` -/
+/-- `id:snd:size:fee:exp:sigok:took:bl:signed:eth:nonce` -/
 def parseMember (s : String) : Option C22.Member :=
   match s.splitOn ":" with
-  | [i, sn, sz, fe, ex, sg, to, bl, sd] => do
+  | [i, sn, sz, fe, ex, sg, to, bl, sd, et, no] => do
     let i ← i.toNat?
     let sn ← sn.toNat?
     let sz ← sz.toNat?
     let fe ← Wire.parseInt? fe
     let ex ← Wire.parseInt? ex
+    let no ← Wire.parseInt? no
     pure { id := i, snd := sn, size := sz, fee := fe, exp := ex, sigOk := sg == "1", toOk := to == "1",
-           bl := bl == "1", signed := sd == "1" }
+           bl := bl == "1", signed := sd == "1", eth := et == "1", nonce := no }
   | _ => none
 
 def parseDef (post : List String) : Option Def := do
@@ -83,7 +85,8 @@ def parseDef (post : List String) : Option Def := do
   let sh ← (field post "sh").bind hexToNat
   let m ← field post "m"
   let ms ← (m.splitOn ",").mapM parseMember
-  pure { tx := { id, snd, size, fee, exp, exps := ms.map (·.exp), eth, esort := es, nonce, sh }, ms }
+  let fwd := (fieldBool post "fwd") == some true
+  pure { tx := { id, snd, size, fee, exp, exps := ms.map (·.exp), eth, esort := es, nonce, sh }, ms, fwd }
 
 /-! printing -/
 
@@ -260,7 +263,7 @@ def handle (st : St) (line : String) : St × String :=
     | "submit" =>
       match args.head?.bind tId |>.bind (findDef st) with
       | some d =>
-        let (p', r) := C22.admitTx st.cfg st.acfg st.pool st.view ⟨d.tx, d.ms⟩ st.now
+        let (p', r) := C22.admitTx st.cfg st.acfg st.pool st.view ⟨d.tx, d.ms, d.fwd⟩ st.now
         let rs := match r with | .ok _ => "ok" | .error e => e.toString
         ({ st with pool := p' }, withDump rs p')
       | none => (st, "bad-op")
